@@ -2369,7 +2369,7 @@ def prove(tier, seed):  # noqa: F811
 
 # ---------------------------------------------------------------------------------------------
 # additional cases (main agent): three or more bases with a non-adjacent biased pair; majorisation of spectra of different length
-def _mub_set(d):
+def _mub_set3(d):
     import numpy as np
 
     if d == 2:
@@ -2394,7 +2394,7 @@ def mub_nonadjacent(p):
     from vt.contract import Violation
 
     d = p["d"]
-    B = _mub_set(d)
+    B = _mub_set3(d)
     for order in itertools.permutations(range(len(B)), 3):
         vs = [v for i in order for v in B[i]]
         if not is_mutually_unbiased_basis(vs):
